@@ -56,6 +56,17 @@ BOOLEAN_HTML_ATTRIBUTES = [
 ]
 
 
+def _stable_name(value: Any) -> str:
+    # A name for a configuration value that is the same in every process.
+    value = getattr(value, 'value', value)  # unwrap ``Symbol``
+    module = getattr(value, '__module__', None)
+    name = getattr(value, '__qualname__', None) or \
+        getattr(value, '__name__', None)
+    if module and name:
+        return "{}.{}".format(module, name)
+    return repr(value)
+
+
 class PageTemplate(BaseTemplate):
     """Constructor for the page template language.
 
@@ -371,15 +382,41 @@ class PageTemplate(BaseTemplate):
         digest = sha256(hex_b)
         digest.update(';'.join(names).encode('utf-8'))
 
+        # Every option that influences the compiled code is part of
+        # the key (a value without a stable name only costs a cache
+        # miss, never a wrong hit).
         for attr in (
             'trim_attribute_space',
             'implicit_i18n_translate',
-            'strict'
+            'strict',
+            'mode',
+            'default_expression',
+            'enable_data_attributes',
+            'enable_comment_interpolation',
+            'restricted_namespace',
         ):
             v = getattr(self, attr)
             digest.update(
-                (";{}={}".format(attr, str(v))).encode('ascii')
+                (";{}={}".format(attr, str(v))).encode('utf-8')
             )
+
+        for attr in ('boolean_attributes', 'implicit_i18n_attributes'):
+            v = getattr(self, attr)
+            if v is not None:
+                v = sorted(v)
+            digest.update(
+                (";{}={}".format(attr, str(v))).encode('utf-8')
+            )
+
+        for attr in ('default_marker', 'tokenizer'):
+            v = _stable_name(getattr(self, attr))
+            digest.update((";{}={}".format(attr, v)).encode('utf-8'))
+
+        types = sorted(
+            (prefix, _stable_name(factory))
+            for prefix, factory in self.expression_types.items()
+        )
+        digest.update((";expression_types={}".format(types)).encode('utf-8'))
 
         return digest.hexdigest()[:32]
 
